@@ -124,7 +124,8 @@ CLAIMED = {
              "generate are equal up to field and member order (sem_eqb, decided by canon). The registry stages (merge_models) are not "
              "under the theorem: the model statement is evaluated for every case of the run (Vperm) and the oracle compares "
              "canonical registries (colour refinement) over all permutations of <=4 samples and duplications, after merge_models, "
-             "under several merge policies: partial.", "6 (C07)"),
+             "under several merge policies; the model of Python == on metadata (order sensitive on same-key-set dicts) is proved equal "
+             "to the sorted element-wise comparison and tied to the implementation by X-pyeq: partial.", "6 (C07)"),
     "C18": C("Theorems (Props/C18.v): on a value that inhabits its annotation the post-init converter (model of "
              "_process_string_field_value / get_string_field_paths, Model/Converters.v) never raises and returns exactly the "
              "specification convert_spec (parsed at pseudo-typed leaves, null kept, lists and mappings mapped); post_init keeps key "
